@@ -63,3 +63,11 @@ Definition solve_forces_outcome (s : solver_kind) (g : guess) (nc db : err_instr
       | None => Loads (w1 + w2) solved_ok
       end
   end.
+
+(* set_err_state (scene.py 3883-3914): every call REPLACES the state; what a call does not mention goes back to "raise" *)
+Definition err_state := (err_instr * err_instr)%type.                 (* (not_converged, database_bounds) *)
+Definition set_err_state (call : option err_instr * option err_instr) : err_state :=
+  (match fst call with Some i => i | None => IRaise end, match snd call with Some i => i | None => IRaise end).
+(* the state after a history of calls on a fresh scene (the constructor calls set_err_state() itself) *)
+Definition err_state_after (calls : list (option err_instr * option err_instr)) : err_state :=
+  fold_left (fun _ c => set_err_state c) calls (IRaise, IRaise).
